@@ -209,6 +209,7 @@ Section TermBlocking.
   Lemma kw_block : forall i t,
     match k_waitpid p i t false with
     | WEintr t' => exists d, eintr_at p i = Some d /\ t <= t'
+    | WEchild => p_kind p <> Child
     | WRunning => False
     | _ => True
     end.
@@ -219,7 +220,7 @@ Section TermBlocking.
       destruct (p_kind p); try (exists d; split; [reflexivity|lra]).
       destruct (p_exit p) as [T0|]; [|exists d; split; [reflexivity|lra]].
       destruct (Qle_bool (t + d) (qmax T0 t)); [exists d; split; [reflexivity|lra] | exact I].
-    - destruct (p_kind p); try exact I.
+    - destruct (p_kind p); try discriminate.
       destruct (p_exit p) as [T0|]; [|exact I]. destruct (Qle_bool T0 t); exact I.
   Qed.
 
@@ -227,11 +228,11 @@ Section TermBlocking.
     match ph with PWait => (rem_from (calls s) (p_eintr p) + 1)%nat | PExists => O end.
 
   Lemma loop_term_block : forall fuel ph s n,
-    TI X s n -> (bcost ph s + n + Lrem s + 1 <= fuel)%nat ->
+    TI X s n -> (ph = PExists -> p_kind p <> Child) -> (bcost ph s + n + Lrem s + 1 <= fuel)%nat ->
     fst (loop (k_waitpid p) (k_exists p) (p_pid p) None start fuel ph s) <> ROutOfFuel.
   Proof.
     destruct (wf_proc_parts _ WF) as (_ & _ & WE).
-    induction fuel as [|f IH]; intros ph s n T B; [lia|].
+    induction fuel as [|f IH]; intros ph s n T PH B; [lia|].
     destruct ph; cbn [loop].
     - cbn [bcost] in B.
       assert (EI : forall t d, eintr_at p (calls s) = Some d -> now s <= t ->
@@ -241,12 +242,12 @@ Section TermBlocking.
       { intros t d Ei M. cbn [expired].
         destruct (ti_at_time X (bump s) n t T M) as [T2 L2].
         destruct (ti_sleep_weak _ _ _ T2) as [T3 L3].
-        apply (IH PWait _ n T3). cbn [bcost do_sleep at_time bump calls].
+        apply (IH PWait _ n T3); [discriminate|]. cbn [bcost do_sleep at_time bump calls].
         pose proof (eintr_rem _ _ Ei). rewrite L2 in L3. unfold Lrem in *. cbn [bump slept] in L3. lia. }
       pose proof (kw_block (calls s) (now s)) as KB. cbn [nohang].
       destruct (k_waitpid p (calls s) (now s) false) as [t| | |t st|] eqn:WW.
       + destruct KB as (d & Ei & M). apply (EI t d Ei M).
-      + apply (IH PExists (bump s) n T). cbn [bcost]. unfold Lrem in *. cbn [bump slept]. lia.
+      + apply (IH PExists (bump s) n T); [intros _; exact KB|]. cbn [bcost]. unfold Lrem in *. cbn [bump slept]. lia.
       + contradiction.
       + cbn [fst]. apply decode_not_oof.
       + cbn. discriminate.
@@ -256,10 +257,11 @@ Section TermBlocking.
       { unfold k_exists in KE. subst X. destruct fin as [K|[T0 Ex]].
         - rewrite K in KE. discriminate.
         - rewrite Ex. unfold ended_by in KE. rewrite Ex in KE.
-          destruct (p_kind p); try discriminate;
-            apply negb_true_iff in KE; apply Qle_bool_false in KE; exact KE. }
+          pose proof (PH eq_refl) as NC.
+          destruct (p_kind p); try discriminate; [contradiction|].
+          apply negb_true_iff in KE; apply Qle_bool_false in KE; exact KE. }
       destruct (ti_sleep_strict _ _ _ T Lt) as (n' & T3 & B3).
-      apply (IH PExists _ n' T3). cbn [bcost]. lia.
+      apply (IH PExists _ n' T3); [exact PH|]. cbn [bcost]. lia.
   Qed.
 
   Theorem wait_blocking_terminates : forall fuel c0,
@@ -275,7 +277,7 @@ Section TermBlocking.
       unfold wait_pid in Wp. destruct (p_pid p <=? 0)%Z eqn:LE; [apply Z.leb_le in LE; lia|].
       pose proof (loop_term_block fuel PWait (init_wst start c0)
                     (match p_exit p with Some T => Z.to_nat (Qceiling ((T - start) * 25)) | None => O end)) as LT.
-      rewrite Wp in LT. apply LT.
+      rewrite Wp in LT. apply LT; [|discriminate|].
       - unfold TI, init_wst. cbn [now interval slept length].
         split; [unfold interval0; lra|]. split; [symmetry; exact ival_0|].
         subst X. destruct (p_exit p) as [T0|].
@@ -303,8 +305,7 @@ Proof.
     + destruct R as (_ & En & _). unfold ended_by in En. destruct (p_exit p) as [T|]; [|discriminate].
       right. exists T. reflexivity.
     + destruct R as (_ & Ex & _). unfold k_exists in Ex. destruct (p_kind p) eqn:K.
-      * apply negb_false_iff in Ex. unfold ended_by in Ex. destruct (p_exit p) as [T|]; [|discriminate].
-        right. exists T. reflexivity.
+      * discriminate.
       * apply negb_false_iff in Ex. unfold ended_by in Ex. destruct (p_exit p) as [T|]; [|discriminate].
         right. exists T. reflexivity.
       * left. reflexivity.
